@@ -1,9 +1,11 @@
 (* Props/C14.v — the theorems that decide property C14 (caches never change a
    verdict or an answer).  Statements only. *)
-From CKB Require Import Tx.SysCache Tx.SysCacheProofs Tx.Cache Tx.CacheProofs.
+From CKB Require Import Tx.SysCache Tx.SysCacheProofs Tx.Cache Tx.CacheProofs Tx.CacheDaoProofs.
 
-(* Verdicts, fees, cycles.  [content] (capacity, scripts -> cycles, fee, DAO
-   lock size) is a function of what the witness hash commits to; the cache is
+(* Verdicts, fees, cycles.  [content] (capacity, scripts -> cycles, fee) is a
+   function of what the witness hash commits to; [time_relative] stands for
+   every check that depends on the position (since, maturity and — see the
+   c14_dao_size theorems below — the DAO lock-size rule); the cache is
    a finite map of ANY capacity under ANY eviction (VEvict restricts it to an
    arbitrary key set at arbitrary moments; capacity 0 = evict everything);
    it may start warm with any sound contents.  For every history of pool
@@ -74,6 +76,114 @@ Theorem c14_block_with_immature_rejected :
     In t txs -> time_relative x t = false ->
     fst (verify_block tx ctx wtx_hash content time_relative maxc c x skip txs) = None.
 Proof. exact block_with_immature_rejected. Qed.
+
+(* ---- the RFC0044 DAO lock-size rule (DaoScriptSizeVerifier) ----------------- *)
+(* The rule is waived when the deposit cell was committed below
+   starting_block_limiting_dao_withdrawing_lock: the same (transaction,
+   witnesses) passes at one position [x] and fails at another.  [dao_size x t]
+   is DaoScriptSizeVerifier at position x, [rfc0044 x] the activation test.
+
+   The block path (BlockTxsVerifier::verify) chains the rule behind BOTH arms:
+   it is the cache model above with "since/maturity and the size rule" as its
+   position-dependent check, so every theorem above applies to it. *)
+Theorem c14_dao_size_block_path_is_conjunction :
+  forall (tx ctx : Type) (wtx_hash : tx -> N) (content : tx -> option completed)
+         (time_relative dao_size : ctx -> tx -> bool) (rfc0044 : ctx -> bool) c x lim skip t,
+    verify_tx_blk tx ctx wtx_hash content time_relative dao_size rfc0044 c x lim skip t =
+    verify_tx tx ctx wtx_hash content (tr_dao tx ctx time_relative dao_size rfc0044) c x lim skip t.
+Proof. exact verify_tx_blk_conj. Qed.
+
+(* Whatever the cache holds (sound or not; hit or miss): where the rule is
+   active and violated, the transaction and every block committing it are
+   rejected — the rule is re-run on the hit path. *)
+Theorem c14_dao_size_always_rerun :
+  forall (tx ctx : Type) (wtx_hash : tx -> N) (content : tx -> option completed)
+         (time_relative dao_size : ctx -> tx -> bool) (rfc0044 : ctx -> bool) c x lim skip t,
+    rfc0044 x = true -> dao_size x t = false ->
+    verify_tx_blk tx ctx wtx_hash content time_relative dao_size rfc0044 c x lim skip t = None.
+Proof. exact dao_size_always_rerun. Qed.
+
+Theorem c14_block_with_dao_mismatch_rejected :
+  forall (tx ctx : Type) (wtx_hash : tx -> N) (content : tx -> option completed)
+         (time_relative dao_size : ctx -> tx -> bool) (rfc0044 : ctx -> bool) (maxc : N) c x skip txs t,
+    In t txs -> rfc0044 x = true -> dao_size x t = false ->
+    fst (verify_block_d tx ctx wtx_hash content time_relative dao_size rfc0044 maxc c x skip txs) = None.
+Proof. exact block_with_dao_mismatch_rejected. Qed.
+
+(* With any sound cache the block path answers for a transaction as with no
+   cache, at EVERY position: in particular at two positions that differ in the
+   waiver. *)
+Theorem c14_dao_size_tx_transparent :
+  forall (tx ctx : Type) (wtx_hash : tx -> N) (content : tx -> option completed)
+         (time_relative dao_size : ctx -> tx -> bool) (rfc0044 : ctx -> bool) (maxc : N) c x t,
+    vcache_ok tx wtx_hash content maxc c ->
+    verify_tx_blk tx ctx wtx_hash content time_relative dao_size rfc0044 c x maxc false t =
+    verify_tx_blk tx ctx wtx_hash content time_relative dao_size rfc0044 [] x maxc false t.
+Proof. exact dao_blk_tx_transparent. Qed.
+
+(* The two-branch scenario itself: verified in a block where the rule is waived
+   (accepted, entry cached), then committed where the rule applies: rejected
+   with that cache exactly as with none. *)
+Theorem c14_dao_waived_then_applies :
+  forall (tx ctx : Type) (wtx_hash : tx -> N) (content : tx -> option completed)
+         (time_relative dao_size : ctx -> tx -> bool) (rfc0044 : ctx -> bool) (maxc : N) x1 x2 t e,
+    time_relative x1 t = true -> dao_size x1 t = true ->
+    rfc0044 x2 = true -> dao_size x2 t = false ->
+    content t = Some e -> N.le (c_cycles e) maxc ->
+    let c1 := snd (verify_block_d tx ctx wtx_hash content time_relative dao_size rfc0044 maxc [] x1 false [t]) in
+    fst (verify_block_d tx ctx wtx_hash content time_relative dao_size rfc0044 maxc [] x1 false [t]) = Some [e] /\
+    lookup c1 (wtx_hash t) = Some e /\
+    fst (verify_block_d tx ctx wtx_hash content time_relative dao_size rfc0044 maxc c1 x2 false [t]) = None /\
+    fst (verify_block_d tx ctx wtx_hash content time_relative dao_size rfc0044 maxc [] x2 false [t]) = None.
+Proof. exact dao_waived_then_applies. Qed.
+
+(* Histories: block verifications at ANY positions, evictions of any kind, a
+   cold or warm sound cache, and pool submissions at positions where the rule
+   holds or is waived for the submitted transaction: all verdicts, fees and
+   cycles equal those of a node without cache. *)
+Theorem c14_dao_size_history_transparent :
+  forall (tx ctx : Type) (wtx_hash : tx -> N) (content : tx -> option completed)
+         (time_relative dao_size : ctx -> tx -> bool) (rfc0044 : ctx -> bool) (maxc : N),
+  (forall t1 t2, wtx_hash t1 = wtx_hash t2 -> content t1 = content t2) ->
+  forall ops c,
+    vcache_ok tx wtx_hash content maxc c -> Forall (dop_ok tx ctx dao_size maxc) ops ->
+    drun tx ctx wtx_hash content time_relative dao_size rfc0044 maxc c ops =
+    drun_ref tx ctx wtx_hash content time_relative dao_size rfc0044 maxc ops.
+Proof. exact dao_history_transparent. Qed.
+
+Theorem c14_dao_size_block_history_transparent :
+  forall (tx ctx : Type) (wtx_hash : tx -> N) (content : tx -> option completed)
+         (time_relative dao_size : ctx -> tx -> bool) (rfc0044 : ctx -> bool) (maxc : N),
+  (forall t1 t2, wtx_hash t1 = wtx_hash t2 -> content t1 = content t2) ->
+  forall ops c,
+    vcache_ok tx wtx_hash content maxc c -> Forall (dop_block_only tx ctx) ops ->
+    drun tx ctx wtx_hash content time_relative dao_size rfc0044 maxc c ops =
+    drun_ref tx ctx wtx_hash content time_relative dao_size rfc0044 maxc ops.
+Proof. exact dao_block_history_transparent. Qed.
+
+(* Refuted without that restriction: the tx-pool's verify_rtx does NOT run
+   DaoScriptSizeVerifier on its hit path.  A withdraw verified in a block where
+   the rule is waived and then offered to the pool on the branch where the rule
+   applies is admitted from the cache and rejected without (replayed on the
+   real node: known finding C14-pool-cache-hit-skips-dao-lock-size). *)
+Theorem c14_pool_hit_skips_dao_size_refuted :
+  exists ops, d_run 10000 [] ops <> d_ref 10000 ops /\
+              d_run 10000 [] ops = [OBlock (Some [mkC 1074 3000]); OTx (Some (mkC 1074 3000))] /\
+              d_ref 10000 ops = [OBlock (Some [mkC 1074 3000]); OTx None].
+Proof. exact pool_hit_skips_dao_size_refuted. Qed.
+
+(* non-vacuity: deposit and withdraw on branch A (cached), deposit on branch B,
+   withdraw where the rule applies (rejected), everything evicted, again *)
+Theorem c14_example_dao_history_ok : Forall (dop_block_only dotx unit) ex_dao_history.
+Proof. exact ex_dao_history_ok. Qed.
+
+Theorem c14_example_dao_history :
+  d_run 10000 [] ex_dao_history =
+  [ OBlock (Some [mkC 537 2000]); OBlock (Some [mkC 1074 3000]);
+    OBlock (Some [mkC 537 2000]); OBlock None; ONone; OBlock None;
+    OBlock (Some [mkC 537 2000; mkC 1074 3000]) ] /\
+  d_ref 10000 ex_dao_history = d_run 10000 [] ex_dao_history.
+Proof. exact ex_dao_history_outputs. Qed.
 
 (* Store read caches: after any history of block / cell writes, deletions of
    unverified blocks, reads and arbitrary evictions in which every read is on
@@ -228,3 +338,13 @@ Redirect "out/C14.c14_example_system_cell" Print Assumptions c14_example_system_
 Redirect "out/C14.c14_system_cell_groups_transparent" Print Assumptions c14_system_cell_groups_transparent.
 Redirect "out/C14.c14_resolved_deps_at_most_limit" Print Assumptions c14_resolved_deps_at_most_limit.
 Redirect "out/C14.c14_group_cost_one_refuted" Print Assumptions c14_group_cost_one_refuted.
+Redirect "out/C14.c14_dao_size_block_path_is_conjunction" Print Assumptions c14_dao_size_block_path_is_conjunction.
+Redirect "out/C14.c14_dao_size_always_rerun" Print Assumptions c14_dao_size_always_rerun.
+Redirect "out/C14.c14_block_with_dao_mismatch_rejected" Print Assumptions c14_block_with_dao_mismatch_rejected.
+Redirect "out/C14.c14_dao_size_tx_transparent" Print Assumptions c14_dao_size_tx_transparent.
+Redirect "out/C14.c14_dao_waived_then_applies" Print Assumptions c14_dao_waived_then_applies.
+Redirect "out/C14.c14_dao_size_history_transparent" Print Assumptions c14_dao_size_history_transparent.
+Redirect "out/C14.c14_dao_size_block_history_transparent" Print Assumptions c14_dao_size_block_history_transparent.
+Redirect "out/C14.c14_pool_hit_skips_dao_size_refuted" Print Assumptions c14_pool_hit_skips_dao_size_refuted.
+Redirect "out/C14.c14_example_dao_history_ok" Print Assumptions c14_example_dao_history_ok.
+Redirect "out/C14.c14_example_dao_history" Print Assumptions c14_example_dao_history.
